@@ -499,6 +499,21 @@ def _local_positions(F, LF, Li, args, st, row, b, n_row=None):
     return out
 
 
+def _running_counter(V, st, c, outer):
+    """True / False: is the name c initialised to 0 at the top level of the function and advanced by one exactly once, unconditionally, after
+    the store st in the same block?  None when its bindings are not of that form"""
+    binds = [s for s in au.stmts(V.body) if sym.Bindings._assigns(s, c, deep=False) and (_may_reach(s, st) or any(s is x for x in au.stmts(outer.body)))]
+    init = [s for s in binds if isinstance(s, ast.Assign) and au.const(s.value) == 0 and not any(isinstance(a, (ast.For, ast.While)) for a in au.ancestors(s))
+            and s.lineno < outer.lineno]
+    bumps = [s for s in binds if s not in init]
+    if len(init) != 1 or len(bumps) != 1 or au.increment(bumps[0]) is None:
+        return None
+    blk, _ = au.enclosing_block(st)
+    pos = [id(x) for x in blk].index(id(st))
+    tgt, sign, amount = au.increment(bumps[0])
+    return tgt == c and sign == 1 and au.const(amount) == 1 and any(bumps[0] is x for x in blk[pos + 1:]) and not au.guards(st, stop=outer)
+
+
 def c1_corner_centre(ctx):
     mod = "attributes.attr_corners"
     m = ctx.repo.module(mod)
@@ -536,6 +551,24 @@ def c1_corner_centre(ctx):
         except sym.NotPoly:
             p = None
         fi = next((f for f in fis if p is not None and p.coeff(f) == Poly.const(3)), None)
+        slot = st.targets[0].slice
+        if fi is None and isinstance(slot, ast.Name) and Li is not None and Li.seq is not None and inner:
+            # running corner index: `c = 0` before the loops, `c += 1` once after every store, corners visited face by face
+            cnt = _running_counter(V, st, slot.id, lp)
+            pos = _local_positions(F, LF, Li, st.value.args, st, row, b, 3)
+            full = he_seq.full(Li.seq)
+            if cnt is None or None in pos or not all(k == "var" for k, _ in pos) or full is None:
+                ctx.undecided("C07-C1", ssite, "cotangent: running corner index / vertices of a corner store not recognised", "")
+                continue
+            sh = [s_ % 3 for _, s_ in pos]
+            seen_k.update((0, 1, 2) if full else ())
+            ctx.check(cnt and sh[1] == 0 and sorted(sh) == [0, 1, 2] and full, "C07-C1", ssite,
+                      f"cotangent: the running corner receives the cotangent at local vertex k{pos[1][1]:+d} between k{pos[0][1]:+d} and k{pos[2][1]:+d}"
+                      + ("" if cnt else "; the running corner index is not advanced by one once after each store")
+                      + ("" if full else "; not all the vertices of the face are visited"),
+                      "geom.cotan(A, B, C) is the cotangent of the angle at B; the corner must get the angle at its own vertex, "
+                      "spanned by the two other vertices of the face", note="running corner centred at its vertex")
+            continue
         if p is None or fi is None:
             ctx.undecided("C07-C1", ssite, "cotangent: the slot of a corner store is not of the form 3*face + k", "")
             continue
@@ -1224,7 +1257,19 @@ def w1_interpolation(ctx):
                                     partners.append(r[1])
                                 elif same_place:
                                     near.append((r[1], au.src(r[3])))
-                            if partners:
+                            if not partners and not near:
+                                # a scalar accumulator restarted for every element of the outer loop: `tot = 0.; for ..: x[k] += w * v; tot += w; x[k] /= tot`
+                                blk_a, _o = au.enclosing_block(st)
+                                for x in (blk_a or []):
+                                    inc = au.increment(x)
+                                    tgt_x = (x.target if isinstance(x, ast.AugAssign) else x.targets[0]) if inc is not None else None
+                                    if inc is not None and isinstance(tgt_x, ast.Name) and inc[1] == 1:
+                                        c2, n2, d2, _, _ = C.factors(inc[2], x, mp)
+                                        if (c2, tuple(n2), tuple(d2)) == wkey:
+                                            partners.append(("scalar", tgt_x.id))
+                            if partners and isinstance(partners[0], tuple):
+                                want = ("scalar", partners[0][1])
+                            elif partners:
                                 want = ("tot", partners[0])
                             elif near:
                                 wsrc = "*".join(w_nums) or "1"
@@ -1283,7 +1328,12 @@ def w1_interpolation(ctx):
                             shared = same_loop[-1]
                             depth = len(same_loop)
                             a_loops = C.loops_of(acc_st)
-                            inner_done = len(a_loops) > depth and any(a_loops[depth] is x for x in shared.body) and any(dst is x for x in shared.body) \
+                            dtop = dst
+                            while au.parent(dtop) is not shared and au.parent(dtop) is not None:
+                                dtop = au.parent(dtop)          # the statement of the shared loop body that holds the division (`if take_mean: x /= n`)
+                            d_in_shared = any(dtop is x for x in shared.body) and not any(isinstance(a, (ast.For, ast.While)) for a in au.ancestors(dst) if a is not shared
+                                                                                            and any(a is y for y in au.stmts(shared.body)))
+                            inner_done = len(a_loops) > depth and any(a_loops[depth] is x for x in shared.body) and d_in_shared \
                                 and dst.lineno > a_loops[depth].lineno
                             own = dk == f"$i{depth - 1}" and acc_key == dk          # the element of the shared loop itself: visited once
                             direct_before = len(a_loops) == depth and any(acc_st is x for x in shared.body) and any(dst is x for x in shared.body) \
@@ -1297,6 +1347,16 @@ def w1_interpolation(ctx):
                         if not bad and not und:
                             if dk != acc_key and same_loop and not (dk.startswith("$i") and acc_key.startswith(("$e", "$i"))):
                                 und.append("the element divided and the element accumulated are keyed differently")
+                            elif want[0] == "scalar":
+                                a_lp = C.loops_of(acc_st)
+                                outer_body = a_lp[-2].body if len(a_lp) >= 2 else []
+                                zeroed = [x for x in outer_body if isinstance(x, ast.Assign) and any(isinstance(t, ast.Name) and t.id == want[1] for t in x.targets)
+                                          and x.lineno < a_lp[-1].lineno and (au.const(x.value) in (0, 0.0) or (isinstance(x.value, ast.Call) and len(x.value.args) == 1
+                                                                                                                and au.const(x.value.args[0]) in (0, 0.0)))]
+                                if not (isinstance(dexpr, ast.Name) and dexpr.id == want[1]):
+                                    bad.append(f"result is divided by `{au.src(dexpr)}` instead of the accumulated normaliser `{want[1]}`")
+                                elif not (same_loop and zeroed):
+                                    und.append("the scalar normaliser is not restarted for every element before its accumulation loop")
                             elif want[0] == "tot":
                                 if dtext != f"{want[1]}[{dk}]":
                                     bad.append(f"result is divided by `{au.src(dexpr)}` instead of the accumulated normaliser `{want[1]}[..]` of the same element")
